@@ -665,6 +665,8 @@ class Circuit(Function):
                             old_to_new_names[operand] for operand in cur_gate.operands
                         ),
                     )
+                    if cur_gate.gate_type != gate.INPUT:
+                        gates_for_block.add(old_to_new_names[cur_gate.label])
 
         self.set_outputs(
             [output for output in self._outputs if output not in this_connectors]
